@@ -261,8 +261,17 @@ impl<'a> Digest<'a> {
         }
         if let Some(v) = bchans {
             // inside build(): first the dispatch queue (bounded), then the pool's job channel
+            // (fallback when no dispatch call touched a queue: the bounded channel created in
+            // build() that anybody ever used; an unused spare channel is not the dispatch queue)
+            let used = |ch: u32| {
+                self.ev.iter().any(|e| match &e.k {
+                    K::ChSend { chan, .. } | K::ChRecv { chan, .. } | K::ChFull { chan } => *chan == ch,
+                    K::Block { on: BlockOn::ChanRecv(c) } | K::Block { on: BlockOn::ChanSend(c) } => *c == ch,
+                    _ => false,
+                })
+            };
             for (ch, cap) in v {
-                if cap.is_some() && sd.dchan.is_none() {
+                if cap.is_some() && sd.dchan.is_none() && used(*ch) {
                     sd.dchan = Some(*ch);
                     sd.dchan_cap = *cap;
                 } else if cap.is_none() && sd.pool_chan.is_none() {
